@@ -9,6 +9,7 @@ mod ports;
 mod files;
 mod screen;
 mod border;
+mod snapshot;
 
 fn main() {
     let mut it = std::env::args().skip(1);
@@ -26,6 +27,7 @@ fn main() {
         "ports" => ports::run(&args),
         "screen" => screen::run(&args),
         "border" => border::run(&args),
+        "snapshot" => snapshot::run(&args),
         "portsdbg" => ports::debug(),
         _ => {
             eprintln!("unknown sub-command {cmd:?}");
